@@ -895,7 +895,7 @@ pub fn cmd_fc(args: &[String]) -> i32 {
       let case: Value = serde_json::from_str(&l).unwrap();
       let mut codes: Vec<String> = case["codes"].as_array().map(|a| a.iter().filter_map(|x| x.as_str().map(|s| s.to_string())).collect()).unwrap_or_default();
       codes.sort();
-      worlds.push((format!("shape{i}"), fc::render_shape(&case["shape"]), Some(json!({"expect": {"codes": codes, "shape": case["shape"]}}))));
+      worlds.push((format!("shape{i}"), fc::render_shape(&case["shape"]), Some(if case.get("sig").is_some() { json!({"expect": {"codes": codes, "shape": case["shape"], "sig": case["sig"]}}) } else { json!({"expect": {"codes": codes, "shape": case["shape"]}}) })));
     }
   } else if let Some(wf) = arg(args, "--worlds") {
     for (i, l) in std::io::BufReader::new(std::fs::File::open(wf).expect("worlds")).lines().enumerate() {
